@@ -205,3 +205,26 @@ def header_insert_sites(prog, f):
                     out.append((c, ks[0]))
                     break
     return out
+
+
+def index_push_sites(prog, f):
+    """calls in `f` that insert a header into a blob's index: IndexTrait::push itself, or a (sync) helper of the same file whose
+    every ok path passes such a push (`index_written_header(&index, &file, key, header)`)"""
+    import core
+    def direct(p):
+        return p.name == 'push' and any('IndexTrait' in t or 'IndexStruct' in t for t in prog.resolve(p))
+    S = core.Summ(prog, direct)
+    out = []
+    for p in f.calls:
+        if p.bb not in f.reachable():
+            continue
+        if direct(p):
+            out.append(p)
+            continue
+        for t in prog.resolve(p):
+            g = prog.fns.get(t)
+            if g is not None and g.file == f.file and not g.is_coroutine and g.id != f.id and g.id == prog.fns[g.id].root \
+               and any(direct(x) for x in g.calls) and S.must(t):
+                out.append(p)
+                break
+    return out
